@@ -162,6 +162,12 @@ func (c *cubicState) cubicCwnd(t float64) float64 {
 // Refer: https://tools.ietf.org/html/rfc8312#section-4
 // getCwnd 返回由CUBIC计算的当前拥塞窗口。
 func (c *cubicState) getCwnd(packetsAcked, sndCwnd int, srtt time.Duration) int {
+	if srtt <= 0 {
+		// No RTT sample yet, or every sample was below the granularity of the
+		// timestamp clock: use that granularity instead of dividing by zero
+		// (which made the window +Inf and, converted to int, negative).
+		srtt = time.Millisecond
+	}
 	elapsed := time.Since(c.t).Seconds()
 
 	// Compute the window as per Cubic after 'elapsed' time
